@@ -104,6 +104,11 @@ Stmt(st, s, brk) ==
          LET r == Expr(st.e, s)
              l == r.s.nloc
          IN AddSt([Alloca(r.s) EXCEPT !.env = Append(@, <<st.n, l>>)], Assign(l, "copy", r.v, KVoid))
+    [] st.k = "lett" ->          \* initialiser first, then the variable; without initialiser no statement at all
+         IF st.e.k = "none" THEN [Alloca(s) EXCEPT !.env = Append(@, <<st.n, s.nloc>>)]
+         ELSE LET r == Expr(st.e, s)
+                  l == r.s.nloc
+              IN AddSt([Alloca(r.s) EXCEPT !.env = Append(@, <<st.n, l>>)], Assign(l, "copy", r.v, KVoid))
     [] st.k = "ret" -> LET r == Expr(st.e, s) IN Push(Fin(r.s, Cur(r.s), TRet(r.v)))
     [] st.k = "retv" -> Push(Fin(s, Cur(s), TRet(KVoid)))
     [] st.k = "break" -> IF brk < 0 THEN [s EXCEPT !.ok = FALSE] ELSE Push(Fin(s, Cur(s), TBr(brk)))
@@ -143,7 +148,7 @@ Stmt(st, s, brk) ==
                 ConnectBodies[j \in 0..Len(bodies)] == IF j = 0 THEN s5 ELSE Fin(ConnectBodies[j - 1], bodies[j], TBr(bodies[j] + 1))
                 s6 == ConnectBodies[Len(bodies)]
             IN IF Len(cc.conds) # Len(starts) THEN [s6 EXCEPT !.ok = FALSE]       \* the assert_eq! of visit_switch_statement
-               ELSE Fin(Fin(s6, head, TBr(exit + 1)), exit, TBr(lastbody + 1))
+               ELSE [Fin(Fin(s6, head, TBr(exit + 1)), exit, TBr(lastbody + 1)) EXCEPT !.env = s.env]      \* the clauses are one scope that ends here
     [] OTHER -> [s EXCEPT !.ok = FALSE]
 
 \* ---- finalize_completion_values (tir/core.rs) ------------------------------------------------------
